@@ -245,7 +245,7 @@ deriving Repr, DecidableEq
     `newestFirstRead` (/repo f7a29ff), `duplicateIdsUnchecked` (/repo 846341e). -/
 def Defects.asImplemented : Defects :=
   { -- findings/C07-placing-references-v2.patch
-    placingEdgeUnchecked := true,
+    placingEdgeUnchecked := false,
     -- open: pinned by the unit test room_node::tests::invalid (findings/C07-open-findings.md)
     placingAuthorUnchecked := true,
     roomRowUnchecked := false, newGroupUserAdminUnchecked := false,
